@@ -28,12 +28,15 @@ THandshake ==
 TSend == Is("Send") /\ SendAllowed(pr, ns, Ev) /\ ns' = AfterSend(ns, Ev) /\ UNCHANGED pr /\ Adv
 TFeed == Is("Feed") /\ FeedAllowed(pr, ns, Ev) /\ ns' = AfterFeed(ns, Ev) /\ UNCHANGED pr /\ Adv
 TEWC  == Is("EWC") /\ ToggleAllowed(pr, ns, Ev) /\ ns' = AfterEWC(ns, Ev) /\ UNCHANGED pr /\ Adv
+TOpen == Is("Open") /\ OpenAllowed(pr, ns, Ev) /\ ns' = AfterOpen(ns, Ev) /\ UNCHANGED pr /\ Adv
+TWr   == Is("Wr") /\ WrAllowed(pr, ns, Ev) /\ UNCHANGED << pr, ns >> /\ Adv
+TCls  == Is("Cls") /\ ClsAllowed(pr, ns, Ev) /\ ns' = AfterCls(ns, Ev) /\ UNCHANGED pr /\ Adv
 TSCL  == Is("SCL") /\ ToggleAllowed(pr, ns, Ev) /\ UNCHANGED << pr, ns >> /\ Adv
 (* after a failed handshake nothing else happens *)
 TEnd  == Is("End") /\ ns.hs \in {"ok", "failed"} /\ UNCHANGED << pr, ns >> /\ Adv
 
 TInit == l = 1 /\ pr = [mode |-> "none"] /\ ns = N0
-TNext == TReset \/ THandshake \/ TSend \/ TFeed \/ TEWC \/ TSCL \/ TEnd
+TNext == TReset \/ THandshake \/ TSend \/ TFeed \/ TEWC \/ TSCL \/ TOpen \/ TWr \/ TCls \/ TEnd
 TSpec == TInit /\ [][TNext]_tvars
 
 Accepted ==
